@@ -1052,6 +1052,9 @@ impl CodegenContext {
                                 }
                                 offset as i64
                             } else {
+                                // (The instruction still takes up its two bytes, so that what follows does not move
+                                // between a pass that reaches the target and a pass that does not)
+                                self.emit(full_span, &[0, 0])?;
                                 return Err(Diagnostic::error()
                                     .with_message(format!(
                                         "branch too far trying to reach ${:4X} from ${:4X}",
@@ -1067,8 +1070,15 @@ impl CodegenContext {
                     match get_opcode_bytes(i.mnemonic.data, am, suffix, value) {
                         Ok(bytes) => self.emit(full_span, &bytes)?,
                         Err(()) => {
-                            // Emit 'BRK' so at least the code map gets updated
-                            self.emit(full_span, &[0])?;
+                            // Emit 'BRK's so at least the code map gets updated. When the mnemonic and the addressing
+                            // mode do exist and only the value doesn't fit, the instruction takes up the room it would
+                            // take up with a value that fits, so that what follows does not move between a pass in
+                            // which the value fits and a pass in which it does not.
+                            let len = get_opcode_bytes(i.mnemonic.data, am, suffix, 256)
+                                .or_else(|()| get_opcode_bytes(i.mnemonic.data, am, suffix, 0))
+                                .map(|b| b.len())
+                                .unwrap_or(1);
+                            self.emit(full_span, &[0u8, 0, 0][..len])?;
                             return Err(Diagnostic::error()
                                 .with_message("invalid instruction")
                                 .with_labels(vec![full_span.to_label()])
